@@ -154,6 +154,14 @@ def run(tier, seed):
                 for aps in (False, True):
                     jobs.append((n, gates, aps))
 
+    if tier == "quick":
+        # qubits that move: every length-3 sequence of two-qubit gates on 3 qubits that contains a swap
+        two = [g for g in multi_gates(3) if len(g) == 3]
+        for gates in itertools.product(two, repeat=3):
+            if any(g[0] == "swap" for g in gates):
+                for aps in (False, True):
+                    jobs.append((3, gates, aps))
+
     def shard_fn(js):
         acc = kernel.Acc()
         for n, gates, aps in js:
